@@ -1,5 +1,5 @@
 (** C18 — option evaluation and variable substitution are total, ordered and deterministic. *)
-From Furiko Require Import Base.Str Admission.Options Proofs.OptionsP.
+From Furiko Require Import Base.Str Admission.Options Proofs.OptionsP Proofs.TemplateP.
 From Coq Require Import Sorted.
 Open Scope list_scope.
 
@@ -103,19 +103,42 @@ Theorem c18_substitution_deterministic :
 Proof. exact substitute_vars_deterministic. Qed.
 Print Assumptions c18_substitution_deterministic.
 
-(** other text is untouched, and a template that is exactly one variable takes the value.
-    PARTIAL: the general statement "every ${name} of an arbitrary template takes the value of
-    the highest-priority map" is tied to the code by the options stream (tokenised
-    templates, independent monitor) and is not yet a theorem. *)
-Theorem c18_plain_text_untouched_partial :
+(** template semantics.  A template is a sequence of literal pieces without '$' and of
+    ${name} tokens (names without '$' and '}'); substitution values contain no '$' (so that
+    nothing is scanned twice), map keys and reserved prefixes contain no '}'.  Then the
+    ReplaceAll / regexp pipeline of SubstituteVariableMaps renders: every variable from the
+    first (highest-priority) map that defines it; else the empty string when its name has a
+    reserved prefix followed by at least one character; else itself; every literal unchanged. *)
+Theorem c18_template_semantics :
+  forall segs maps prefixes,
+    forallb wf_seg segs = true ->
+    (forall m, In m maps -> kv_wf m) ->
+    (forall q, In q prefixes -> no_brace q = true) ->
+    substitute_maps (render segs) maps prefixes = render (map (final_seg maps prefixes) segs).
+Proof. exact template_semantics. Qed.
+Print Assumptions c18_template_semantics.
+
+(** in the task: explicit/option/default/jobconfig values (spec.substitutions) win over the job
+    context, which wins over the task context *)
+Theorem c18_pod_template_semantics :
+  forall subs jobv taskv segs,
+    forallb wf_seg segs = true -> kv_wf subs -> kv_wf jobv -> kv_wf taskv ->
+    pod_subst subs jobv taskv (render segs) =
+    render (map (final_seg ((match subs with [] => [] | _ => [subs] end) ++ [jobv; taskv]) pod_prefixes) segs).
+Proof.
+  intros subs jobv taskv segs Hw H1 H2 H3. unfold pod_subst. apply template_semantics; auto.
+  - intros m Hm. apply in_app_or in Hm as [Hm|[<-|[<-|[]]]]; auto. destruct subs; [destruct Hm|destruct Hm as [<-|[]]; auto].
+  - intros q [<-|[<-|[<-|[<-|[]]]]]; reflexivity.
+Qed.
+Print Assumptions c18_pod_template_semantics.
+
+(** values that themselves contain variable syntax are outside the theorem above: for them
+    the result is whatever the sorted ReplaceAll sequence yields (deterministic by
+    c18_substitution_deterministic, tied to the code by the options stream). *)
+Theorem c18_plain_text_untouched :
   forall s maps prefixes, no_dollar s = true -> substitute_maps s maps prefixes = s.
 Proof. exact substitute_maps_plain. Qed.
-Print Assumptions c18_plain_text_untouched_partial.
-
-Theorem c18_exact_variable_partial :
-  forall search v, search <> EmptyString -> replace_all search search v = v.
-Proof. exact replace_all_exact. Qed.
-Print Assumptions c18_exact_variable_partial.
+Print Assumptions c18_plain_text_untouched.
 
 (** Non-vacuity: a JobConfig with three options, values for two of them, an explicit override *)
 Open Scope string_scope.
@@ -130,4 +153,11 @@ Example c18_nonvacuous :
   /\ eval_options [] [("env", VStr "qa")] ex_opts = None
   /\ pod_subst [("option.env", "prod")] [("job.name", "j")] [] "run ${option.env} ${job.name} ${task.x}${other}"
      = "run prod j ${other}".
+Proof. repeat split; vm_compute; reflexivity. Qed.
+
+Definition ex_segs := [Lit "run "; Var "option.env"; Lit " "; Var "job.name"; Lit " "; Var "task.x"; Var "other"; Var "task."].
+Example c18_template_nonvacuous :
+  forallb wf_seg ex_segs = true /\
+  render ex_segs = "run ${option.env} ${job.name} ${task.x}${other}${task.}" /\
+  render (map (final_seg [[("option.env", "prod")]; [("job.name", "j")]; []] pod_prefixes) ex_segs) = "run prod j ${other}${task.}".
 Proof. repeat split; vm_compute; reflexivity. Qed.
